@@ -268,7 +268,7 @@ func Equal(a, b ast.Node) bool {
 		if len(a.Elts) != len(b.Elts) {
 			return false
 		}
-		for i, elt := range b.Elts {
+		for i, elt := range a.Elts {
 			if !Equal(elt, b.Elts[i]) {
 				return false
 			}
@@ -332,7 +332,7 @@ func Equal(a, b ast.Node) bool {
 		return false
 	case *ast.ChanType:
 		b := b.(*ast.ChanType)
-		return a.Dir == b.Dir && (a.Arrow == token.NoPos && b.Arrow == token.NoPos || a.Arrow != token.NoPos && b.Arrow != token.NoPos)
+		return Equal(a.Value, b.Value) && a.Dir == b.Dir && (a.Arrow == token.NoPos && b.Arrow == token.NoPos || a.Arrow != token.NoPos && b.Arrow != token.NoPos)
 	case *ast.FieldList:
 		b := b.(*ast.FieldList)
 		if len(a.List) != len(b.List) {
